@@ -1,5 +1,7 @@
 import CoercionModel.Model.Cont
 import CoercionModel.Proofs.Engine
+import CoercionModel.Model.Routing
+import CoercionModel.Generated.F2
 set_option linter.unusedSimpArgs false
 /-
   C07 — Cont-check failures are never lost; deferred checks always run once entered.
@@ -160,6 +162,26 @@ theorem plan_cont_failure_reason (p : MPlan) (pre c : MGroup) (hp : p.pre = some
     simp only [planBypassed, optRan] at hb
     cases h : p.bypass <;> simp_all
   simp [runPlan, planFinal, final, hbn, verdict, hp, hc, hb, planContVerdict, hpre, hf]
+
+/-! ### tie to the sources: the routing graph (fact F2, regenerated from sm.go / final.go / recovery.go /
+    actions.go / execute/recovery.go on every run) -/
+
+/-- the successor relation extracted from the sources is the one the models implement -/
+theorem facts_routing : Generated.F2.succ = Routing.table := by decide
+
+/-- On the routing graph, a block's end is reached only from its bypass checks or from its deferred
+    checks: every non-bypassed way through a block passes its deferred checks. -/
+theorem block_end_only_via_deferred : Routing.preds "sm" "BlockEnd" = ["BlockBypassChecks", "BlockDeferredChecks"] := by decide
+
+/-- Likewise the plan's End is reached only from the plan bypass, the plan's deferred checks, or
+    Recovery (the shortcut of known finding D21). -/
+theorem plan_end_only_via_deferred :
+    Routing.preds "sm" "End" = ["PlanBypassChecks", "PlanDeferredChecks", "Recovery"] := by decide
+
+/-- … and the deferred states are entered from every stage that can fail. -/
+theorem deferred_reached_from_failing_stages :
+    Routing.preds "sm" "BlockDeferredChecks" = ["BlockPostChecks", "BlockPreChecks", "ExecuteSequences"] ∧
+    Routing.preds "sm" "PlanDeferredChecks" = ["BlockEnd", "ExecuteBlock", "PlanPostChecks", "PlanPreChecks"] := by decide
 
 /-! ### non-vacuity -/
 def tr : List Label := [.start, .tick, .runDone false, .send, .tick, .runDone true, .cancel, .drainRecv, .send, .close, .drainRecv]
